@@ -4,7 +4,7 @@ Every random choice comes from the `random.Random` passed in.  Probabilities are
 exactly as they would stand in a ruleset file."""
 import itertools
 
-ALPHA_POOL = ['abcdefghij', 'klmnopqrst', 'uvwxyzåäö', 'абвгдежзик', 'αβγδεζηθικ']
+ALPHA_POOL = ['abcdefghij', 'klmnopqrst', 'uvwxyzåäö', 'абвгдежзик', 'αβγδεζηθικ', 'aßeŉoﬁuǰsς', 'straße']
 DIGITS = '0123456789'
 OTHERS = ['!', '@', '#', '$', '%', ' ', '_', '-', '.', '€', '😀', '*', '+']
 CONTEXT = ['#1', ';p', ':p', '*0*', '<3', 'n1', 'c#', '#2pac', 'h8', '2pac', '1+1']
